@@ -58,6 +58,12 @@ func judgeStream(prop, cfg string, rp *ref.Problem, cost *ref.Cost, items []solv
 		}
 	}
 	last := items[len(items)-1]
+	if len(items) >= 2 && last.Status == solver.Sat && items[len(items)-2].Weight == last.Weight+1 {
+		out.probe("stream-last-step-improves-by-1")
+		if last.Weight == 0 && cost != nil && len(cost.Lits) > 3 {
+			out.probe("stream-ends-1-then-0-with->3-cost-literals")
+		}
+	}
 	if last.Status != ret.Status || last.Weight != ret.Weight || fmt.Sprint(last.Model) != fmt.Sprint(ret.Model) {
 		out.fail("C20", "last-differs-from-returned", "[%s] last delivered %s/%d/%v, returned %s/%d/%v", cfg, statusStr(last.Status), last.Weight, last.Model, statusStr(ret.Status), ret.Weight, ret.Model)
 	}
